@@ -111,7 +111,39 @@ def sig_c10_props(oracle, inp, ver):
     return oracle == "probe:propsUntouched" and "propsMutator" in (inp.get("feat") or [])
 
 
+def sig_c17_race(oracle, inp, ver):
+    """a data race one side of which is a firing sio timer goroutine (TimerEntry.run) and the other
+    the crew's own processing"""
+    r = inp.get("race", "")
+    return oracle == "probe:dataRace" and "sio.(*TimerEntry).run" in r and "sio.(*Crew)." in r
+
+
+def c17_race_probe(res, workdir, rseed, rargs, opts):
+    """Run the sio timer scenarios in a -race build (the harness drives ProcessMsg from one goroutine,
+    as Crew.Loop does, and does not itself touch the timer table in this run); every reported data
+    race is a failing input of "timer activity never corrupts crew state"."""
+    import subprocess, os, re
+    from checklib_main import build_go_race, HARNESS_RACE, GOENV
+    if not build_go_race(res.log):
+        res.oblige("harness:race-build", False, "go build -race failed (cgo/gcc needed)")
+        return False
+    env = dict(GOENV, GORACE="exitcode=66", VERIF_NO_PENDING="1", GOMEMLIMIT="3GiB")
+    p = subprocess.run([HARNESS_RACE, "siotimers"] + rargs, stdout=subprocess.DEVNULL, stderr=subprocess.PIPE, text=True, env=env, timeout=600)
+    blocks = [b for b in p.stderr.split("==================") if "WARNING: DATA RACE" in b]
+    res.evaluations += 1
+    res.feat["raceRun"] += 1
+    for b in blocks:
+        frames = re.findall(r"^\s+(github.com/Comcast/sheens/\S+|main\.\S+)\(\)", b, flags=re.M)
+        short = "\n".join(l for l in b.strip().split("\n") if "sheens" in l or "DATA RACE" in l or "by goroutine" in l)[:3000]
+        res.failing.append(("probe:dataRace", {"race": short, "frames": sorted(set(frames)), "op": "siotimers -race", "args": rargs}, {"corr": True}))
+    if p.returncode not in (0, 66):
+        res.oblige("harness:race-run", False, p.stderr[-800:])
+        return False
+    return True
+
+
 SIGNATURES = {
+    "c17-sio-timer-goroutine-vs-crew-loop-race": sig_c17_race,
     "c10-props-shallow-copy": sig_c10_props,
     "c15-delete-then-recreate-within-one-round": sig_c15_resurrect,
     "c03-repeated-variable-structured-values": sig_c03_repeated_structured,
@@ -191,7 +223,7 @@ PROPS = {
         "facts": ["match_copies_first", "copyBindingss_copies", "matcher_branches_copy", "matcher_writes_only_locals_and_bindings"],
         "runs": {
             "quick": [("match", ["-profile", "c03", "-n", "8000", "-reps", "32"])],
-            "thorough": [("match", ["-profile", "c03", "-n", "40000", "-reps", "64"])],
+            "thorough": [("match", ["-profile", "c03", "-n", "40000", "-reps", "64"]), ("match", ["-profile", "c03", "-n", "3000", "-reps", "8"], {"race": True})],
         },
         "analyze": analyze_match(["det", "probe"]),
         "rule": MATCH_RULE + "  Every case is evaluated repeatedly by the implementation (Go randomises map iteration) and the "
@@ -328,9 +360,9 @@ PROPS = {
         "facts": [],
         "runs": {
             "quick": [("timersgen", ["-profile", "mcrew", "-n", "120"], {"overlay": MCREW_TIMERS_OVERLAY}),
-                      ("siotimers", ["-n", "120"])],
+                      ("siotimers", ["-n", "120"]), ("siotimers", ["-n", "40"], {"runner": c17_race_probe})],
             "thorough": [("timersgen", ["-profile", "mcrew", "-n", "1500"], {"overlay": MCREW_TIMERS_OVERLAY}),
-                         ("siotimers", ["-n", "1500"])],
+                         ("siotimers", ["-n", "1500"]), ("siotimers", ["-n", "300"], {"runner": c17_race_probe})],
         },
         "analyze": analyze_generic,
         "oracles": ["logAccepted", "firedOnce", "neverEarly", "neverBoth", "tableIsPending", "tableLive", "noMissedFire"],
@@ -411,7 +443,7 @@ PROPS = {
         "facts": ["runtime_is_per_exec", "bindings_deep_copied"],
         "runs": {
             "quick": [("isolation", ["-n", "600"]), ("walk", ["-profile", "failing", "-n", "2000"])],
-            "thorough": [("isolation", ["-n", "3000"]), ("walk", ["-profile", "failing", "-n", "5000"])],
+            "thorough": [("isolation", ["-n", "3000"]), ("walk", ["-profile", "failing", "-n", "5000"]), ("isolation", ["-n", "400"], {"race": True})],
         },
         "analyze": analyze_generic,
         "oracles": [],
@@ -445,7 +477,7 @@ PROPS = {
         "facts": ["specter_atomic", "engine_writes_only_locals", "matcher_writes_only_locals_and_bindings"],
         "runs": {
             "quick": [("concurrent", ["-n", "1500"])],
-            "thorough": [("concurrent", ["-n", "4000"])],
+            "thorough": [("concurrent", ["-n", "4000"]), ("concurrent", ["-n", "600"], {"race": True})],
         },
         "analyze": analyze_generic,
         "oracles": [],
